@@ -618,7 +618,9 @@ fn main() {
     // ---- phase (ii): histories.  All histories are planned from the PRNG first; the first
     // `n_hist_alone` run on the main thread with nothing else going on in the process, the others
     // in 4 lanes side by side (each lane is itself a longer history interleaved with the others).
-    let conc: Vec<usize> = inproc.iter().copied().filter(|&i| !cases[i].fallback_region()).collect();
+    // (--clang-macro-fallback cases used to be kept out of the concurrent phases: known finding
+    // macro_fallback_shared_scratch_files, repaired in /repo 63f9f962 — they take part again)
+    let conc: Vec<usize> = inproc.clone();
     let mut hist_lens: Vec<usize> = vec![];
     type HStep = (usize, Option<usize>, bool, usize);
     let mut plans: Vec<Vec<HStep>> = vec![];
